@@ -267,6 +267,13 @@ fn run_history(sim: &mut Sim, pool: &[TlDesc], tl0: usize, two: bool, steps: &[(
             ok = false;
             break;
         }
+        acc.count(&format!("frames_{}->{}", state_name(pre.state), state_name(post.state)), 1);
+        for ev in &mine {
+            acc.count(&format!("events_{}", state_name(*ev)), 1);
+        }
+        if !pre.enabled {
+            acc.count("frames_while_disabled", 1);
+        }
         // coverage signature: what kind of frame was this?
         let d = mon.desc.as_ref().unwrap();
         let dclass = ["zero", "tiny", "medium", "hitch"][*di];
